@@ -1,7 +1,7 @@
 (** C20 proofs, part 4: bit strings in Fift hex and message addresses. *)
 From Coq Require Import List NArith ZArith Bool Lia Arith.
 From Tongo Require Import Lib.Bits Lib.Res Model.BitString Model.BitStringD Model.JsonText Model.Json
-  Proofs.Fift Proofs.BitStringW Proofs.BitStringD Proofs.JsonTextP Proofs.JsonValidP Proofs.JsonP.
+  Proofs.Fift Proofs.BitStringW Proofs.BitStringR Proofs.BitStringD Proofs.JsonTextP Proofs.JsonValidP Proofs.JsonP.
 Import ListNotations.
 Local Open Scope N_scope.
 
@@ -160,6 +160,21 @@ Proof.
   destruct (written_bs_spec l free) as [HI Ha]. split.
   - rewrite (print_bitstring_bs_spec _ HI), Ha. reflexivity.
   - apply bitstring_roundtrip.
+Qed.
+
+(* the BitString returned by ReadBits -- stale source bits behind its length
+   included -- prints as the text of exactly the bits read, and parses back *)
+Theorem read_bitstring_roundtrip n s s' r :
+  Inv s -> read_bits_bs n s = (s', Ok r) ->
+  abs r = rd s n /\ print_bitstring_bs r = Ok (print_bitstring (rd s n))
+  /\ parse_bitstring (print_bitstring (rd s n)) = Ok (rd s n).
+Proof.
+  intros HI E. pose proof (read_bits_bs_spec n s HI) as Hs.
+  destruct (rcur s + n <=? len s)%nat.
+  - destruct Hs as (r0 & E0 & Ha & HIr & _). rewrite E0 in E. injection E as _ <-.
+    split; [exact Ha|]. split; [|apply bitstring_roundtrip].
+    rewrite (print_bitstring_bs_spec r0 HIr), Ha. reflexivity.
+  - rewrite Hs in E. discriminate.
 Qed.
 
 Lemma bitstring_shape l : json_number_or_plain_string (print_bitstring l).
